@@ -1151,6 +1151,16 @@ def compare_replay(chk, P, ns, f, t, modes, calls):
             return ("model-vs-code:sampler-replay",
                     f"sample {i} of generate_samples({ns}, min_detected_photons={f}) is {a}; the model, fed the same draws "
                     f"(tag counter {t}), gives {b}")
+    if "profiles" in rep:
+        # the observable of theorem sampler_filtered_law (Lean `profile`): per mode (photons with the common tag,
+        # photons with a fresh tag), evaluated by the model on its sample and here on the REAL sample
+        chk.branch("draws-profile-compared")
+        for i, (a, pr) in enumerate(zip(modes, rep["profiles"])):
+            real = [[sum(1 for x in tags if x in (None, 0)), sum(1 for x in tags if x not in (None, 0))] for tags in a]
+            if real != [list(c) for c in pr]:
+                return ("model-vs-code:sampler-profile",
+                        f"sample {i} of generate_samples({ns}, min_detected_photons={f}) is {a}: per-mode (common, fresh) "
+                        f"photon numbers {real}; the model's profile of its own sample is {pr}")
     return None
 
 
@@ -1327,6 +1337,23 @@ def noise_kwargs(P):
             "g2_distinguishable": d["model"] == DIST, "transmittance": float(d["eta"])}
 
 
+def rejected_noise(P):
+    """does `Source.from_noise_model` raise on these NoiseModel values?  (every field passes NoiseModel's own
+    validation; the asserts of Source.__init__ do not: brightness 0, or brightness * g2 > 1/2)"""
+    d = derived(P)
+    return not (0 < d["beta"] <= 1 and 0 <= d["g2"] <= 1 and d["beta"] * d["g2"] <= F(1, 2)
+                and 0 <= d["losses"] <= 1)
+
+
+def bad_noise(rng, base):
+    """values NoiseModel accepts and Source.__init__ rejects, well away from the boundary (the assert is evaluated
+    in floats): brightness * g2 >= 0.54, or brightness 0"""
+    P = {k: base[k] for k in ("eta", "r", "model")}
+    if rng.random() < 0.25:
+        return {**P, "beta": "0", "g2": rng.choice(["0", "1/4"]), "q": "1"}
+    return {**P, "beta": rng.choice(["1", "9/10"]), "g2": rng.choice(["3/5", "4/5", "1"]), "q": "0"}
+
+
 class HistBook:
     """The harness' own bookkeeping of a history (independent of Lean and of the code): which NoiseModel
     object is held, the values every object has NOW, whether the held object was updated in place and
@@ -1341,6 +1368,7 @@ class HistBook:
         k = case["init"]["noise"]
         self.held = self.none_id if k is None else k
         self.dirty = False
+        self.rejected = False       # the last assignment was rejected by the Source constructor (then `dirty`)
         self.cached = False
         self.ns = None              # the current Fock input as the source sees it (heralds merged in), or None
         self.custom = None          # identity of the current custom input, or None
@@ -1375,6 +1403,8 @@ class HistBook:
                 (st["via"] != "getter" or st["id"] == self.held)
         if op == "copy":
             return st["id"] in self.vals and st["to"] == self.next_id
+        if op == "heralds":
+            return bool(self.heralds)
         if op == "assign":
             return st["id"] is None or (st["id"] in self.vals and st["id"] != self.none_id)
         return True
@@ -1399,8 +1429,20 @@ class HistBook:
         elif op == "copy":
             self.vals[st["to"]] = self.vals[st["id"]]
             self.next_id += 1
+        elif op == "assign" and rejected_noise(self.vals[self.none_id if st["id"] is None else st["id"]]):
+            # Source.from_noise_model raises inside the observer: the reference is stored, nothing else changes
+            self.shapes.add("hist-assign-rejected")
+            self.shapes.add("hist-assign-rejected-" + ("cached" if self.cached and self.ns is not None else "uncached"))
+            if st["id"] == self.held:
+                self.shapes.add("hist-assign-rejected-same-object")
+            self.held, self.dirty, self.rejected = st["id"], True, True
         elif op == "assign":
             k = self.none_id if st["id"] is None else st["id"]
+            if self.rejected:
+                self.shapes.add("hist-accepted-after-rejected")
+                if k == self.held:
+                    self.shapes.add("hist-rejected-object-fixed-inplace-reassigned")
+                self.rejected = False
             if k == self.held:
                 if self.dirty:
                     self.shapes.add("hist-inplace-reassign")
@@ -1461,6 +1503,8 @@ class HistBook:
                 self.shapes.add("hist-probs")
             if self.dirty:
                 self.shapes.add("hist-dirty-read-unjudged")
+                if self.rejected and self.ns is not None:
+                    self.shapes.add("hist-read-after-rejected")
             elif self.ns is not None:
                 self.shapes.add("hist-read-cached" if self.cached else "hist-read-regenerates")
             elif self.custom is not None:
@@ -1473,6 +1517,12 @@ class HistBook:
                 self.cached = True
         elif op == "source":
             self.shapes.add("hist-read-source")
+        elif op == "heralds":
+            self.shapes.add("hist-noisy-heralds")
+
+    def herald_values(self):
+        """the state `generate_noisy_heralds` hands to the source: the herald values in mode order"""
+        return [v for _, v in self.heralds]
 
     def lean_step(self, st):
         op = st["op"]
@@ -1492,6 +1542,8 @@ class HistBook:
             return {"op": "read"}
         if op == "source":
             return {"op": "source", "ns": st["ns"], "thr": core.rat(F(st["thr"]) if st.get("thr") else 0)}
+        if op == "heralds":         # generate_noisy_heralds() is a direct request to processor._source
+            return {"op": "source", "ns": self.herald_values(), "thr": "0"}
         return {"op": "other"}
 
 
@@ -1573,10 +1625,22 @@ def judge_hist(chk, case):
                 objs[st["to"]] = pcvl.NoiseModel(**noise_kwargs(book.vals[st["id"]]))
             elif op == "assign":
                 nm = None if st["id"] is None else objs[st["id"]]
-                if st.get("route") == "experiment":
-                    proc.experiment.noise = nm
-                else:
-                    proc.noise = nm
+                expect_reject = st["id"] is not None and rejected_noise(book.vals[st["id"]])
+                try:
+                    if st.get("route") == "experiment":
+                        proc.experiment.noise = nm
+                    else:
+                        proc.noise = nm
+                    raised = False
+                except AssertionError:
+                    if not expect_reject:
+                        raise
+                    raised = True
+                if expect_reject and not raised and fail is None:
+                    fail = (f"{where}: noise {noise_kwargs(book.vals[st['id']])} was accepted although the Source "
+                            f"constructor asserts against it")
+                if expect_reject and raised and proc.noise is not nm and fail is None:
+                    fail = f"{where}: after the rejected assignment processor.noise is not the object that was assigned"
             elif op == "input":
                 proc.with_input(BasicState(st["ns"]))
             elif op == "custom":
@@ -1600,12 +1664,28 @@ def judge_hist(chk, case):
                 svd = proc.source.generate_distribution(BasicState(st["ns"])) if thr is None else \
                     proc.source.generate_distribution(BasicState(st["ns"]), thr)
                 judged, ns_req = not book.dirty, st["ns"]
+            elif op == "heralds":
+                svd = proc.generate_noisy_heralds()
+                judged, ns_req = not book.dirty, book.herald_values()
             else:
                 raise ValueError("unknown step " + op)
             book.apply(st)
             if outs[i]["dirty"] != book.dirty:
                 raise core.LeanError(f"harness bookkeeping and model disagree on the ghost flag at step {i}")
             if not judged:
+                # 'updated in place / rejected, not yet (re-)assigned': nothing is demanded by the property, but the
+                # model says which source answers (the one built from the values accepted last): model-vs-code only
+                if op in ("read", "source", "heralds") and svd is not None and fail is None and book.custom is None \
+                        and "dist" in outs[i] and not outs[i]["near"]:
+                    try:
+                        worst = cmp_dicts(to_canon_dict(svd_entries(svd)),
+                                          to_canon_dict(lean_entries(outs[i]["dist"]), exact=True))
+                    except ValueError:
+                        worst = None
+                    chk.branch("hist-dirty-read-model-compared")
+                    if worst is not None:
+                        fail = (f"{where} (held noise object updated in place or rejected, not yet re-assigned): state "
+                                f"{worst[0]}: code {worst[1]!r}, model {worst[2]!r}")
                 continue
             Pcur = book.vals[book.held]
             if op == "read" and book.custom is not None:
@@ -1649,6 +1729,7 @@ def judge_hist(chk, case):
                 except Exception:  # noqa
                     fresh_ok = False
                 what = ("Processor.source_distribution" if op == "read" else
+                        "Processor.generate_noisy_heralds" if op == "heralds" else
                         "Processor.source.generate_distribution")
                 if fresh_ok:
                     sg = "history-dependent-source-distribution"
@@ -1772,8 +1853,51 @@ def gen_hist(rng, pick_params):
     for _ in range(rng.randint(1, 4)):
         move = rng.choice(["sweep", "sweep", "sweep", "other", "equal", "equal", "same", "none", "input", "input", "source",
                            "filter", "read", "roundtrip", "roundtrip", "roundtrip", "custom", "clear", "probs",
-                           "again"])
-        if move == "roundtrip":
+                           "again", "reject", "reject", "heralds"])
+        if move == "reject":
+            # an assignment the Source constructor rejects (NoiseModel accepts every field on its own): a new object,
+            # or the held object after an in-place update; then the user recovers — fixes the object in place and
+            # assigns it again, or assigns another object
+            if book.ns is None and book.custom is None and rng.random() < 0.7:
+                emit_input(rand_ns())
+            if book.ns is not None and not book.cached and rng.random() < 0.6:
+                emit({"op": "read"})
+            base = book.vals[book.held]
+            if book.held != book.none_id and not book.dirty and rng.random() < 0.4:
+                k = book.held
+                emit({"op": "set", "id": k, "P": bad_noise(rng, base), "via": rng.choice(["ref", "getter"]),
+                      "fields": rng.choice(["all", "changed"])})
+            else:
+                k = book.next_id
+                emit({"op": "copy", "id": book.held if book.held != book.none_id else 0, "to": k})
+                emit({"op": "set", "id": k, "P": bad_noise(rng, book.vals[k]), "via": "ref",
+                      "fields": rng.choice(["all", "changed"])})
+            emit({"op": "assign", "id": k, "route": route()})
+            for _ in range(rng.randint(0, 2)):
+                if book.ns is not None and rng.random() < 0.6:
+                    emit({"op": "read"})
+                elif rng.random() < 0.5:
+                    emit({"op": "source", "ns": rand_ns(), "thr": None})
+                elif rng.random() < 0.5:
+                    emit_input(rand_ns())
+            how = rng.choice(["fix", "fix", "other", "none"])
+            if how == "fix":
+                emit({"op": "set", "id": k, "P": pick_params(), "via": rng.choice(["ref", "getter"]), "fields": "all"})
+                emit({"op": "assign", "id": k, "route": route()})
+            else:
+                if k < nobj:        # an original object stays usable for the later moves
+                    emit({"op": "set", "id": k, "P": pick_params(), "via": "ref", "fields": "all"})
+                others = [i for i in range(nobj) if i != k]
+                if how == "other" and others:
+                    emit({"op": "assign", "id": rng.choice(others), "route": route()})
+                else:
+                    emit({"op": "assign", "id": None, "route": route()})
+            if rng.random() < 0.8:
+                emit({"op": "read"})
+        elif move == "heralds":
+            if book.heralds:
+                emit({"op": "heralds"})
+        elif move == "roundtrip":
             # Fock state A, a custom input (it overwrites the slot of the cached mixture), [reads, a noise assignment,
             # a filter change, probs() in between], then a Fock state again — the SAME one most of the time
             if book.ns is None or rng.random() < 0.3:
@@ -1891,6 +2015,356 @@ JUDGES = {"gen": judge_gen, "proc": judge_gen, "pd": judge_pd, "table": judge_ta
           "bad": judge_bad, "hist": judge_hist, "draws": judge_draws}
 
 
+# ------------------------------------------------------------------------------------------------
+# Source.simplify_distribution = True  (anonymize_annotations)            [kinds "simplify", "anon"]
+# ------------------------------------------------------------------------------------------------
+def visit_order(bs):
+    """the photons of a BasicState in the order `anonymize_annotations` visits them: per mode the list of tags
+    (None / int) in index order i = 0 .. n-1"""
+    out = [[] for _ in range(bs.m)]
+    last = 0
+    for i in range(bs.n):
+        mode = bs.photon2mode(i)
+        if mode < last:
+            raise ValueError("photon2mode is not non-decreasing")
+        last = mode
+        s = str(bs.get_photon_annotation(i))
+        if s == "":
+            out[mode].append(None)
+        else:
+            mt = _ANN.fullmatch(s)
+            if not mt:
+                raise ValueError(f"unexpected annotation {s!r}")
+            out[mode].append(int(mt.group(1)))
+    return out
+
+
+def exact_key(modes):
+    """a state as an exact key: per mode the sorted tags (None first)"""
+    return tuple(tuple(sorted(tags, key=lambda t: -1 if t is None else t)) for tags in modes)
+
+
+def pattern_of(modes):
+    """complete invariant of an annotated state under ARBITRARY renaming of its tags (no tag is special, 'no
+    annotation' counts as one more tag): the sorted multiset of the occupation vectors of the tags"""
+    m = len(modes)
+    occ = {}
+    for i, tags in enumerate(modes):
+        for t in tags:
+            occ.setdefault(t, [0] * m)[i] += 1
+    return tuple(sorted(tuple(v) for v in occ.values()))
+
+
+def pattern_law_closed(P, ns):
+    """law of the tag-equality pattern from the PHYSICAL DESCRIPTION (exact Fractions, independent of the code
+    and of the Lean model): per requested photon nothing with probability 1-beta, the signal alone p1, signal +
+    extra p2; every photon survives with probability eta independently; the signal carries the common tag with
+    probability r, else a tag of its own; the extra photon carries a tag of its own ("distinguishable") or the
+    common tag ("indistinguishable").  -> {pattern: Fraction}"""
+    d = derived(P)
+    beta, q, eta, r = d["beta"], d["q"], d["eta"], d["r"]
+    p2 = beta * (1 - q) / (1 + q)
+    p1 = beta - p2
+    sig = {(0, 0): 1 - eta, (1, 0): eta * r, (0, 1): eta * (1 - r)}
+    ext = {(0, 0): 1 - eta, ((0, 1) if d["model"] == DIST else (1, 0)): eta}
+    one = {}
+
+    def add(dst, k, v):
+        if v != 0:
+            dst[k] = dst.get(k, 0) + v
+    add(one, (0, 0), 1 - beta)
+    for k, v in sig.items():
+        add(one, k, p1 * v)
+    for k1, v1 in sig.items():
+        for k2, v2 in ext.items():
+            add(one, (k1[0] + k2[0], k1[1] + k2[1]), p2 * v1 * v2)
+    per_mode = []
+    for n in ns:
+        cur = {(0, 0): F(1)}
+        for _ in range(n):
+            new = {}
+            for k1, v1 in cur.items():
+                for k2, v2 in one.items():
+                    add(new, (k1[0] + k2[0], k1[1] + k2[1]), v1 * v2)
+            cur = new
+        per_mode.append(cur)
+    m = len(ns)
+    out = {}
+    for combo in itertools.product(*[list(pm.items()) for pm in per_mode]):
+        pr = F(1)
+        for _, v in combo:
+            pr *= v
+        vecs = []
+        c = tuple(k[0] for k, _ in combo)
+        if any(c):
+            vecs.append(c)
+        for i, (k, _) in enumerate(combo):
+            for _ in range(k[1]):
+                vecs.append(tuple(1 if j == i else 0 for j in range(m)))
+        add(out, tuple(sorted(vecs)), pr)
+    return out
+
+
+def simplify_sources(case):
+    """-> (flagged distribution, unflagged distribution of an equal source in the same state, tag counter)"""
+    import perceval as pcvl
+    from perceval.utils import BasicState
+    P, ns = case["P"], case["ns"]
+    thr = thr_float(case)
+    outs = []
+    t = 0
+    for flag in (True, False):
+        if case.get("via") == "proc":
+            d = derived(P)
+            noise = pcvl.NoiseModel(
+                brightness=float(d["beta"]), indistinguishability=float(d["ind"]), g2=float(d["g2"]),
+                g2_distinguishable=(d["model"] == DIST), transmittance=float(d["eta"]))
+            proc = pcvl.Processor("SLOS", len(ns), noise=noise)
+            if flag:
+                proc.source.simplify_distribution = True
+            proc.with_input(BasicState(ns))
+            outs.append(proc.source_distribution)
+        else:
+            src = mk_source(P)
+            if flag:
+                src.simplify_distribution = True
+            t = advance(src, case.get("pre", 0))
+            outs.append(src.generate_distribution(BasicState(ns)) if thr is None else
+                        src.generate_distribution(BasicState(ns), thr))
+    return outs[0], outs[1], t
+
+
+def oracle_simplify(chk, P, ns, svd_s, svd_u, exact_law):
+    """the property on the real simplified output.  -> None or (signature, text)"""
+    from perceval.utils import anonymize_annotations
+    perfect, pd = classify(P)
+    ent_s, ent_u = svd_entries(svd_s), svd_entries(svd_u)
+    if not pd:
+        # the flag must be a no-op: identical keys (strings) and identical probabilities
+        a = [(str(k), float(p)) for k, p in svd_s.items()]
+        b = [(str(k), float(p)) for k, p in svd_u.items()]
+        if a != b:
+            return ("simplify-acts-without-annotations",
+                    f"simplify_distribution changes the distribution of a source that is not partially "
+                    f"distinguishable: {a[:3]} vs {b[:3]}")
+        return None
+    total = sum(p for _, p in ent_s)
+    if ent_s and not core.close(total, 1.0):
+        return ("simplify-changes-law", f"the simplified distribution has total probability {total!r}")
+    if any(p < 0 for _, p in ent_s):
+        return ("negative-probability", "a state has negative probability")
+    keys = [exact_key(mo) for mo, _ in ent_s]
+    if len(set(keys)) != len(keys):
+        return ("simplify-duplicate-keys", "two keys of the simplified distribution are the same state")
+    probs = [p for _, p in ent_s]
+    if any(probs[i] < probs[i + 1] for i in range(len(probs) - 1)):
+        return ("simplify-not-sorted", "the simplified distribution is not sorted by decreasing probability")
+    for mo, p in ent_s:
+        if len(mo) != len(ns):
+            return ("mode-count", f"a simplified state has {len(mo)} modes for {len(ns)} requested")
+        names = set(t for tags in mo for t in tags)
+        if names != set(range(len(names))):
+            return ("simplify-names", f"the tags of the simplified state {mo} are not _:0 .. _:{len(names) - 1}")
+    # the law of the tag-equality pattern (it determines the photon counts per mode) is that of the
+    # unsimplified output of an equal source, and every pattern has exactly one key
+    got, want = {}, {}
+    for mo, p in ent_s:
+        got[pattern_of(mo)] = got.get(pattern_of(mo), 0.0) + p
+    for mo, p in ent_u:
+        want[pattern_of(mo)] = want.get(pattern_of(mo), 0.0) + p
+    if len(got) != len(ent_s):
+        return ("simplify-duplicate-keys", "two simplified states have the same tag pattern")
+    if len(want) < len(ent_u):
+        chk.branch("simplify-merges-states")
+    for k in set(got) | set(want):
+        if not core.close(got.get(k, 0.0), want.get(k, 0.0)):
+            return ("simplify-changes-law",
+                    f"P(tag pattern {k}) is {got.get(k, 0.0)!r} in the simplified distribution, {want.get(k, 0.0)!r} "
+                    f"in the distribution it simplifies")
+    if exact_law:
+        law = pattern_law_closed(P, ns)
+        for k in set(got) | set(law):
+            if not core.close(got.get(k, 0.0), float(law.get(k, 0))):
+                return ("simplify-pattern-law",
+                        f"P(tag pattern {k}) is {got.get(k, 0.0)!r} in the simplified distribution; brightness/g2/"
+                        f"transmittance/indistinguishability demand {float(law.get(k, 0))!r}")
+    # anonymising again changes nothing
+    again = anonymize_annotations(svd_s, annot_tag="_")
+    a = sorted((exact_key(mo), p) for mo, p in svd_entries(again))
+    b = sorted((k, p) for k, (_, p) in zip(keys, ent_s))
+    if [k for k, _ in a] != [k for k, _ in b] or any(not core.close(x[1], y[1]) for x, y in zip(a, b)):
+        return ("simplify-not-idempotent", "anonymising the simplified distribution again changes it")
+    for mo, _ in ent_u:
+        flat = [t for tags in mo for t in tags]
+        if flat and flat[0] not in (None, 0):
+            chk.branch("simplify-fresh-tag-becomes-0")
+            break
+    if any(t is not None and t >= 10 for mo, _ in ent_u for tags in mo for t in tags):
+        chk.branch("simplify-two-digit-tags")
+    return None
+
+
+def judge_simplify(chk, case):
+    """generate_distribution / Processor.source_distribution with simplify_distribution = True"""
+    P, ns = case["P"], case["ns"]
+    thr = thr_float(case)
+    what = "Processor.source_distribution" if case.get("via") == "proc" else "generate_distribution"
+    try:
+        svd_s, svd_u, t = simplify_sources(case)
+        ent_s = svd_entries(svd_s)
+        a, b = mk_source(P), mk_source(P)
+        b.simplify_distribution = True
+        eq_bad = (a == b) or not (a == mk_source(P))
+    except Exception as e:  # noqa
+        return ("violation", "raises-" + type(e).__name__,
+                f"{what} with simplify_distribution raised {type(e).__name__}: {str(e)[:200]}", case)
+    perfect, pd = classify(P)
+    chk.branch("simplify-on-pd" if pd else "simplify-on-nonpd")
+    if case.get("via") == "proc":
+        chk.branch("simplify-via-proc")
+    if thr is not None and thr > 0:
+        chk.branch("simplify-thr-explicit")
+    rep = chk.lean.ask({"op": "gen_simplify", "P": lean_P(P, noise=case.get("via") == "proc"), "ns": ns, "t": t,
+                        "thr": core.rat(thr if thr is not None else 0), "simplify": True})
+    fail = None
+    if "err" in rep:
+        fail = f"the model rejects this setting: {rep['err']}"
+    else:
+        if rep["near"]:
+            chk.branch("near-threshold-skipped")
+            return None
+        if rep["applied"] != pd:
+            fail = f"model applies the simplification: {rep['applied']}, harness classification: {pd}"
+        real, model = {}, {}
+        for mo, p in ent_s:
+            real[exact_key(mo)] = real.get(exact_key(mo), 0.0) + p
+        for mo, p in lean_entries(rep["dist"]):
+            model[exact_key(mo)] = model.get(exact_key(mo), 0) + p
+        worst = cmp_dicts(real, model)
+        if worst is not None and fail is None:
+            fail = f"state {worst[0]}: code {worst[1]!r}, model {worst[2]!r}"
+    orc = oracle_simplify(chk, P, ns, svd_s, svd_u, exact_law=(thr is None or thr <= 1e-16))
+    if orc is not None:
+        return ("violation", orc[0], orc[1], case)
+    if eq_bad:
+        return ("violation", "eq-ignores-simplify",
+                "Source.__eq__ does not distinguish simplify_distribution (or equal sources compare different)", case)
+    if fail is not None:
+        return ("broken", "model-vs-code:simplify", fail, case)
+    return None
+
+
+def judge_anon(chk, case):
+    """anonymize_annotations(StateVector) on an arbitrary annotated state vs the model"""
+    from perceval.utils import BasicState, StateVector, anonymize_annotations
+    text = case["state"]
+    try:
+        bs = BasicState(text)
+        vis = visit_order(bs)
+        res = anonymize_annotations(StateVector(bs), annot_tag="_")
+        if len(res) != 1:
+            raise ValueError("the anonymised state is superposed")
+        out = bs_modes(res[0])
+    except Exception as e:  # noqa
+        return ("violation", "raises-" + type(e).__name__,
+                f"anonymize_annotations raised {type(e).__name__}: {str(e)[:200]}", case)
+    flat = [t for tags in vis for t in tags]
+    if len(set(flat)) < len(flat):
+        chk.branch("anon-repeated-tag")
+    if None in flat:
+        chk.branch("anon-unannotated-photon")
+    if any(t is not None and t >= 10 for t in flat):
+        chk.branch("anon-two-digit-tag")
+    rep = chk.lean.ask({"op": "anon_state", "state": vis})
+    fail = None
+    if "err" in rep:
+        fail = f"the model rejects this state: {rep['err']}"
+    elif exact_key(rep["state"]) != exact_key(out):
+        fail = f"{text}: code {exact_key(out)}, model {exact_key(rep['state'])}"
+    names = set(t for tags in out for t in tags)
+    if pattern_of(out) != pattern_of(vis) or [len(x) for x in out] != [len(x) for x in vis]:
+        return ("violation", "anonymize-changes-pattern",
+                f"anonymize_annotations({text}) = {exact_key(out)} does not keep which photons share a tag", case)
+    if names != set(range(len(names))):
+        return ("violation", "simplify-names", f"anonymize_annotations({text}) = {exact_key(out)}: names not 0..k-1", case)
+    if fail is not None:
+        return ("broken", "model-vs-code:anon", fail, case)
+    return None
+
+
+JUDGES["simplify"] = judge_simplify
+JUDGES["anon"] = judge_anon
+
+
+def handle_anon(chk, case):
+    chk.count("kind", "anon")
+    chk.branch("anon")
+    t0 = time.perf_counter()
+    res = judge(chk, case)
+    secs = chk.extra.setdefault("seconds_by_kind", {})
+    secs["anon"] = round(secs.get("anon", 0.0) + time.perf_counter() - t0, 3)
+    chk.case(("anon", case["state"]), nontrivial=any(ch.isdigit() and ch != "0" for ch in case["state"]), sample=case)
+    if res is not None:
+        chk.fail(res[0], res[1], res[2], {"case": case})
+
+
+def anon_state_text(rng, max_tag):
+    m = rng.randint(1, 3)
+    parts = []
+    pool = [rng.randint(0, max_tag) for _ in range(rng.randint(1, 4))]
+    for _ in range(m):
+        k = rng.randint(0, 3)
+        s = "".join("{_:%d}" % rng.choice(pool) for _ in range(k))
+        u = rng.choice([0, 0, 0, 1, 2])
+        if u:
+            s += str(u)
+        parts.append(s or "0")
+    return "|" + ",".join(parts) + ">"
+
+
+SIMPLIFY_REQUIRED = ["simplify-on-pd", "simplify-on-nonpd", "simplify-merges-states", "simplify-fresh-tag-becomes-0",
+                     "simplify-via-proc", "simplify-thr-explicit", "simplify-two-digit-tags", "anon", "anon-repeated-tag",
+                     "anon-unannotated-photon", "anon-two-digit-tag"]
+
+
+def simplify_required():
+    return SIMPLIFY_REQUIRED + [f"imp:{c}:simplify" for c in LATTICE]
+
+
+def simplify_cases(chk, lat, rng):
+    out = []
+    inputs = chk.pick([[1, 1], [2], [1, 0, 1], [2, 1]], [[1], [1, 1], [2], [1, 0, 1], [2, 1], [0, 2], [2, 2], [1, 1, 1]])
+    for il, (cell, P) in enumerate(lat):
+        for ii, ns in enumerate(inputs if chk.thorough else [inputs[il % 4], inputs[(il + 1) % 4]]):
+            out.append({"kind": "simplify", "P": P, "ns": ns, "pre": (il + ii) % 3})
+        out.append({"kind": "simplify", "P": P, "ns": [[1, 1], [2], [1, 2]][il % 3], "via": "proc"})
+        out.append({"kind": "simplify", "P": P, "ns": [[2, 1], [1, 1]][il % 2], "thr": ["1/1000", "1/20"][il % 2],
+                    "pre": il % 2})
+    for name in ("pd-dist", "pd-indist", "pd-dist-I1", "hom-only", "r-zero", "r-zero-indist", "q-zero", "nonpd-g2"):
+        for ns in ([2, 2], [1, 1, 1], [3], [0, 1, 2]):
+            out.append({"kind": "simplify", "P": FIXED[name], "ns": ns, "pre": rng.choice([0, 1, 2])})
+    for _ in range(chk.pick(20, 300)):
+        P = rand_params(rng)
+        m = rng.randint(1, 3)
+        ns = [rng.randint(0, 2) for _ in range(m)]
+        while sum(ns) > 4:
+            ns[rng.randrange(m)] = 0
+        out.append({"kind": "simplify", "P": P, "ns": ns, "pre": rng.choice([0, 0, 1, 3]),
+                    "thr": rng.choice([None, None, None, "0", "1/1000", "1/20"]),
+                    **({"via": "proc"} if rng.random() < 0.2 else {})})
+        if out[-1].get("via") == "proc":
+            out[-1].pop("thr"), out[-1].pop("pre")
+    # tag counter far enough for two-digit tags (their strings share a prefix with one-digit ones)
+    out.append({"kind": "simplify", "P": FIXED["pd-dist"], "ns": [2, 1], "pre": 5})
+    out.append({"kind": "simplify", "P": FIXED["pd-indist"], "ns": [1, 1, 1], "pre": 10})
+    for st in ("|{_:3}{_:1},{_:2}>", "|{_:2},{_:1}{_:2}>", "|{_:10}{_:9},{_:9}>", "|1,{_:4}>", "|{_:1}{_:0}2,1>", "|0,0>",
+               "|2{_:5},{_:0}{_:5}>", "|{_:12}{_:3}{_:12}1,0,{_:3}2>"):
+        out.append({"kind": "anon", "state": st})
+    for _ in range(chk.pick(60, 600)):
+        out.append({"kind": "anon", "state": anon_state_text(rng, rng.choice([3, 12]))})
+    return out
+
+
 def judge(chk, case):
     return JUDGES[case["kind"]](chk, case)
 
@@ -1998,6 +2472,8 @@ def handle_hist(chk, case):
 def handle(chk, case):
     if case["kind"] == "hist":
         return handle_hist(chk, case)
+    if case["kind"] == "anon":
+        return handle_anon(chk, case)
     P = case["P"]
     kind = case["kind"]
     chk.count("kind", kind)
@@ -2119,7 +2595,14 @@ def run(chk: core.Check):
         "cancellation in the code's closed form for p2 is a relative error 1.5e-16/(g2*p2) of p2 (6e-6 at "
         "brightness*g2 = 1e-5), which conditioning on a strict filter turns into a relative error of the entries "
         "(counted in filtered_table_tolerance_widened); unconditioned probabilities keep 1e-9",
-        "Source.simplify_distribution is left at its default False",
+        "Source.simplify_distribution is False except in the kind 'simplify' (there: set on the Source object, or on "
+        "processor.source before with_input; keys compared EXACTLY — the new names are the ranks of first appearance, "
+        "nothing is left to rename; the order of the entries is only checked to be non-increasing on the real output, "
+        "the model's stable order is not compared because float ties need not be rational ties); that assigning "
+        "processor.noise builds a new Source and thereby resets the flag is not modelled; kind 'anon': "
+        "anonymize_annotations on arbitrary one-state StateVectors, the photons handed to the model in the visiting "
+        "order read off the real BasicState (exqalibur stores the annotated photons of a mode ordered by annotation "
+        "STRING, the unannotated ones last)",
         "states are compared up to renaming of the non-zero distinguishability tags (complete invariant: "
         "occupation vectors per tag); for generate_samples an unannotated photon and the signal tag _:0 are identified",
         "settings in which a trimming comparison falls within 1e-6 (relative) of the threshold are skipped and counted",
@@ -2132,7 +2615,9 @@ def run(chk: core.Check):
         "additionally validated by the statistical goodness-of-fit test (a test, not a proof)",
         "a NoiseModel updated in place takes effect at the next assignment to processor.noise (NoiseModel has no "
         "observer); reads between the in-place update and the assignment are performed but not judged",
-        "histories use only noise values the Source constructor accepts; while a custom input is the current input, "
+        "an assignment of noise values the Source constructor rejects (brightness 0, brightness*g2 > 1/2) is expected "
+        "to raise AssertionError and to leave the processor with the source of the values accepted last; reads in that "
+        "state are compared with the model only; while a custom input is the current input, "
         "source_distribution is only compared with the object that was handed over (model-vs-code, not a clause of "
         "the property); LogicalState inputs (ports) are not generated; clear_input_and_circuit only on processors "
         "without heralds",
@@ -2165,11 +2650,17 @@ def run(chk: core.Check):
                               "hist-noise-assigned-under-custom", "hist-custom-read", "hist-clear",
                               *["hist-custom-read-after-noise-assigned-" + f for f in CUSTOM_FORMS],
                               "hist-read-after-clear", "hist-fock-after-clear", "hist-herald", "hist-probs",
-                              "hist-same-input-again"]
+                              "hist-same-input-again",
+                              "hist-assign-rejected", "hist-assign-rejected-cached", "hist-assign-rejected-uncached",
+                              "hist-assign-rejected-same-object", "hist-accepted-after-rejected",
+                              "hist-rejected-object-fixed-inplace-reassigned", "hist-read-after-rejected",
+                              "hist-dirty-read-model-compared", "hist-noisy-heralds", "draws-profile-compared"]
     # every cell of the imperfection lattice through every kind of observation
     chk.required_branches += lattice_required()
     # every order of magnitude through every exact kind of observation
     chk.required_branches += mag_required()
+    # simplify_distribution = True: every cell of the lattice, the merging / renaming branches, anonymize_annotations
+    chk.required_branches += simplify_required()
     chk.lean = core.LeanDriver("C06")
     rng = chk.rng
 
@@ -2274,6 +2765,26 @@ def run(chk: core.Check):
             (init, 2, [{"op": "input", "ns": A}, {"op": "custom", "c": 1, "form": "svd-same", "ns": A},
                        {"op": "filter", "k": 0}, {"op": "probs"}, {"op": "input", "ns": B}] + rd
              + [{"op": "custom", "c": 2, "form": "polarized"}, {"op": "input", "ns": B}] + rd),
+        ]
+        BADP = {**{k: P[k] for k in ("eta", "r", "model")}, "beta": "1", "g2": "4/5", "q": "0"}
+        det += [
+            # a rejected assignment (brightness * g2 = 4/5) of a new object with the mixture cached, a read in that
+            # state, the object fixed in place and assigned again
+            (init, 2, [{"op": "input", "ns": A}] + rd + [{"op": "copy", "id": 0, "to": 2},
+                       {"op": "set", "id": 2, "P": BADP, "via": "ref", "fields": "changed"},
+                       {"op": "assign", "id": 2, "route": "proc"}] + rd +
+                      [{"op": "source", "ns": B, "thr": None},
+                       {"op": "set", "id": 2, "P": Q, "via": "getter", "fields": "all"},
+                       {"op": "assign", "id": 2, "route": "proc"}] + rd),
+            # the held object made inadmissible in place, re-assigned (rejected), then another object assigned
+            (init, 2, [{"op": "input", "ns": A}, {"op": "set", "id": 0, "P": BADP, "via": "ref", "fields": "all"},
+                       {"op": "assign", "id": 0, "route": "experiment"}] + rd +
+                      [{"op": "assign", "id": None, "route": "proc"}] + rd + [{"op": "input", "ns": B}] + rd),
+            # generate_noisy_heralds: the herald photons go through the current source
+            ({**init, "heralds": {"1": 1}}, 2,
+             [{"op": "heralds"}, {"op": "input", "ns": A}, {"op": "heralds"},
+              {"op": "set", "id": 0, "P": Q, "via": "ref", "fields": "changed"},
+              {"op": "assign", "id": 0, "route": "proc"}, {"op": "heralds"}] + rd),
         ]
         for ini, mm, steps in det:
             cases.append({"kind": "hist", "m": mm, "objs": [P], "init": ini, "steps": steps})
@@ -2415,6 +2926,8 @@ def run(chk: core.Check):
             case["prior"] = [{**q, "cache": rng.random() < 0.3}
                              for q in prior_requests(P, ns, f, rng.choice(["stricter", "weaker", "other-n", "two"]))]
         cases.append(case)
+    # 9. Source.simplify_distribution = True (anonymize_annotations)
+    cases.extend(simplify_cases(chk, lat, rng))
     for case in cases:
         handle(chk, case)
     chk.extra["gof_false_alarm_level"] = ALPHA
